@@ -55,7 +55,7 @@ def sign(rng):
 
 
 WORD_ALPHABET = "abcxyz019._*?[]~%#;:/=+-"
-HOSTILE = ['"', "\\", "~", "%", "(", ";", "#", "\x01", "é", "'", "a b", "*", "?", "[", "☃"]
+HOSTILE = ['"', "\\", "~", "%", "(", ";", "#", "\x01", "é", "'", "a b", "*", "?", "[", "☃", "\u00a0", "\u3000", "\x0b", "\x0c", "\u0085", "\u2028"]
 
 
 def word(rng, hostile=0.15):
@@ -326,5 +326,8 @@ def source_dictionary():
                 continue
             if re.search(r"[%:~#@$<>|]", w) and " " not in w and "'" not in w:
                 words.add(w)
+        # placeholders and markers inside longer literals: {name}, %name%, %lf3:kind
+        for m in re.finditer(r"\{[A-Za-z_][A-Za-z_0-9]*\}|%[A-Za-z_:0-9]+%|%lf3:[a-z]+", txt):
+            words.add(m.group(0))
     _DICT = sorted(words)[:200]
     return _DICT
